@@ -7,19 +7,20 @@
       BlockParser.parse                :113-124
       BlockParser._parse               :126-154
       BlockParser._analyze_entry       :156-195
-      BlockParser._skip_other_block    :197-223
-      BlockParser._parse_block         :225-249
-      BlockParser.parse_bracket        :251-268
-      BlockParser.parse_pair           :270-284
-      BlockParser.break_last_block     :311-340
-      BlockParser.break_separator      :342-371
+      BlockParser._skip_other_block    :197-226
+      BlockParser._parse_block         :228-252
+      BlockParser.parse_bracket        :254-271
+      BlockParser.parse_pair           :273-287
+      BlockParser.break_last_block     :314-343
+      BlockParser.break_separator      :345-374
     rogw/tranp/view/helper/decorator.py
-      DecoratorHelper._parse           :20-42
+      DecoratorHelper._parse           :20-44
     rogw/tranp/implements/cpp/view/cpp_view_helper.py
-      CppViewHelper.Param.parse        :42-61
+      CppViewHelper.Param.parse        :42-65
+  (tree after the four C18 repairs 3111a97, d6d867d, eb33d21, f350973)
 
   Conventions: Python `str` = `Str` = `List Char`; `text[b:e]` = `slice`; every Python exception that the code can raise on
-  `str` arguments is an explicit `Except.error` (only `IndexError` occurs); `while` loops whose index jumps
+  `str` arguments is an explicit `Except.error` (`IndexError`; `ValueError` for `str.index`); `while` loops whose index jumps
   (`index = _skip_other_block(...)`) are recursions on a fuel argument, `Err.Fuel` is the "loop did not finish" result and is
   shown never to occur (Lemmas/Block.lean, and checked by the correspondence streams).
   Imports nothing but `Tranp.Str` and the generated table.
@@ -34,18 +35,17 @@ open Tranp Tranp.Generated.BlockPairs
 
 inductive Err
   | IndexError
+  | ValueError
   /-- model artefact: recursion fuel exhausted (never produced, see `*_fuel` lemmas) -/
   | Fuel
-  /-- model artefact: a branch the Python can not reach -/
-  | Unreachable
   deriving DecidableEq, Repr
 
 deriving instance DecidableEq for Except
 
 def Err.toString : Err → String
   | .IndexError => "IndexError"
+  | .ValueError => "ValueError"
   | .Fuel => "model-fuel-exhausted"
-  | .Unreachable => "model-unreachable"
 
 /-- `s[i]` (non-negative `i`): `IndexError` when out of range. -/
 def charAt (s : Str) (i : Nat) : Except Err Char :=
@@ -90,12 +90,16 @@ def openTokens : Str := allPairs.map (·.1)
 
 /-! ## `_skip_other_block` (block.py:197-223) -/
 
-/-- One iteration's effect on `other_closes` (top of the Python list = head here), block.py:211-216. -/
+/-- `other_closes[-1] in '"\''` (block.py:215): the two quote characters are written out in the code, not taken from the table. -/
+def isQuoteChar (c : Char) : Bool := has ['"', '\''] c
+
+/-- One iteration's effect on `other_closes` (top of the Python list = head here), block.py:211-219. -/
 def skipStep (toks : List (Char × Char)) (st : List Char) (c : Char) : List Char :=
   match classify toks c with
   | .none => st                                   -- `if text[index] in other_tokens` is false
   | k =>
     if st.head? = some c then st.tail             -- `len(other_closes) > 0 and other_closes[-1] == other_tokens[other_index]` → pop
+    else if (st.head?.map isQuoteChar).getD false then st   -- inside a string: `elif len(other_closes) > 0 and other_closes[-1] in '"\''` → pass
     else match k with
       | .opener cl => cl :: st                    -- `elif other_index % 2 == 0` → append(other_tokens[other_index + 1])
       | _ => st
@@ -221,7 +225,7 @@ def parseLoop (text brackets delimiter : Str) : Nat → Nat → Nat → List Ent
       match ← analyzeEntry text brackets delimiter index with
       | .block entryBegin indexForKind =>
         let (end_, inEntries) ← blockLoop text brackets delimiter fuel (indexForKind + 1) depth []
-        parseLoop text brackets delimiter fuel (end_ + 1) depth (entries ++ [Entry.mk entryBegin end_ depth .Block inEntries])
+        parseLoop text brackets delimiter fuel end_ depth (entries ++ [Entry.mk entryBegin end_ depth .Block inEntries])
       | .element entryBegin indexForKind =>
         parseLoop text brackets delimiter fuel indexForKind depth (entries ++ [Entry.mk entryBegin indexForKind depth .Element []])
       | .fin i => .ok (i, entries)
@@ -251,20 +255,30 @@ def parse (text brackets delimiter : Str) : Except Err Entry := do
   | e :: _ => .ok e
   | [] => .error .IndexError
 
-/-- `text.find(sub, start)` for a one-character `sub`. -/
-def findFrom (text : Str) (c : Char) (start : Nat) : Option Nat :=
-  (Str.find (text.drop start) [c]).map (· + start)
+/-- `text.index(sub, start)`: `ValueError` when `sub` does not occur at or behind `start`. -/
+def indexFrom (text sub : Str) (start : Nat) : Except Err Nat :=
+  match Str.find (text.drop start) sub with
+  | some i => .ok (i + start)
+  | none => .error .ValueError
 
-/-- `BlockParser.parse_bracket(text, brackets)` (block.py:261-268). -/
-def parseBracket (text brackets : Str) : Except Err (List Str) := do
-  let root ← parse text brackets []
-  let b0 ← charAt brackets 0
-  (root :: root.unders).foldlM (fun blocks e =>
-    if e.kind = .Block then
-      match findFrom text b0 e.begin with
-      | some blockBegin => .ok (blocks ++ [slice text blockBegin e.end_])
-      | none => .error .Unreachable      -- a Block entry has its opening bracket at or after `begin`
-    else .ok blocks) []
+/-- `text[-1:e]` (the slice the Python takes when `_analyze_entry` answers `End`, whose third component is -1). -/
+def sliceLast (text : Str) (e : Nat) : Str :=
+  if text = [] then [] else slice text (text.length - 1) e
+
+/-- The loop body of `parse_bracket` (block.py:267-269): the block's bracket position is the third component of
+    `_analyze_entry(text, brackets, '', entry.begin)` (-1 for `End`, hence `text[-1:end]`). -/
+def bracketStep (text brackets : Str) (blocks : List Str) (e : Entry) : Except Err (List Str) :=
+  if e.kind = .Block then
+    (analyzeEntry text brackets [] e.begin).bind fun a =>
+      match a with
+      | .block _ blockBegin => .ok (blocks ++ [slice text blockBegin e.end_])
+      | .element _ blockBegin => .ok (blocks ++ [slice text blockBegin e.end_])
+      | .fin _ => .ok (blocks ++ [sliceLast text e.end_])
+  else .ok blocks
+
+/-- `BlockParser.parse_bracket(text, brackets)` (block.py:264-271). -/
+def parseBracket (text brackets : Str) : Except Err (List Str) :=
+  (parse text brackets []).bind fun root => (root :: root.unders).foldlM (bracketStep text brackets) []
 
 /-- insertion used by `sortByDepth`: the new element goes *before* the elements with an equal key. -/
 def insertByDepth (e : Entry) : List Entry → List Entry
@@ -291,44 +305,58 @@ def parsePair (text brackets delimiter : Str) : Except Err (List (Str × Str)) :
 def dictSet (m : List (Str × Str)) (k v : Str) : List (Str × Str) :=
   if m.any (·.1 = k) then m.map (fun kv => if kv.1 = k then (k, v) else kv) else m ++ [(k, v)]
 
-/-- The body of the `for index, arg in enumerate(...)` loop (decorator.py:36-40): the (key, value) it stores. -/
-def decoKV (index : Nat) (arg : Str) : Str × Str :=
-  if Str.count '=' arg > 0 then
-    match Str.splitOn '=' arg with
-    | label :: remain => (label, Str.join ['='] remain)
-    | [] => ([], [])                               -- `split` never returns an empty list
-  else (Str.natToDec index, arg)
+/-- The body of the `for index, arg in enumerate(...)` loop (decorator.py:36-42): the (key, value) it stores.
+    A label is recognised only at a *top-level* `=` (`break_separator(arg, '=')` has more than one piece); key and value are
+    sliced from `arg` at the first `=` behind the first piece. -/
+def decoKV (index : Nat) (arg : Str) : Except Err (Str × Str) :=
+  (breakSeparator arg ['=']).bind fun labelValue =>
+  match labelValue with
+  | first :: _ :: _ =>
+    (indexFrom arg first 0).bind fun at0 =>
+    (indexFrom arg ['='] (at0 + first.length)).bind fun assignAt =>
+    .ok (slice arg 0 assignAt, arg.drop (assignAt + 1))
+  | _ => .ok (Str.natToDec index, arg)
 
-def decoArgsFrom : Nat → List Str → List (Str × Str) → List (Str × Str)
-  | _, [], m => m
-  | i, a :: as, m => decoArgsFrom (i + 1) as (dictSet m (decoKV i a).1 (decoKV i a).2)
+def decoArgsFrom : Nat → List Str → List (Str × Str) → Except Err (List (Str × Str))
+  | _, [], m => .ok m
+  | i, a :: as, m => (decoKV i a).bind fun kv => decoArgsFrom (i + 1) as (dictSet m kv.1 kv.2)
 
-def decoArgs (pieces : List Str) : List (Str × Str) := decoArgsFrom 0 pieces []
+def decoArgs (pieces : List Str) : Except Err (List (Str × Str)) := decoArgsFrom 0 pieces []
 
 /-- `DecoratorHelper._parse(decorator)` → (path, args, join_args). -/
 def decoParse (decorator : Str) : Except Err (Str × List (Str × Str) × Str) :=
   match Str.find decorator ['('] with
   | none => .ok (decorator, [], [])
-  | some argsBegin => do
+  | some argsBegin =>
     let path := slice decorator 0 argsBegin
     let joinArgs := slice decorator (argsBegin + 1) (decorator.length - 1)
-    let pieces ← breakSeparator joinArgs [',']
-    .ok (path, decoArgs pieces, joinArgs)
+    (breakSeparator joinArgs [',']).bind fun pieces =>
+    (decoArgs pieces).bind fun args =>
+    .ok (path, args, joinArgs)
 
 /-! ## `CppViewHelper.Param.parse` (cpp_view_helper.py:56-61) -/
 
-/-- → (var_type, symbol, default_value). -/
-def paramParse (parameter : Str) : Except Err (Str × Str × Str) := do
-  let paramDefault ← breakSeparator parameter ['=']
-  let (param, defaultValue) ←
-    match paramDefault with
-    | [p, d] => pure (p, d)
-    | p :: _ => pure (p, [])
-    | [] => .error .IndexError                     -- `param_default[0]`
-  let typeSymbol ← breakSeparator param [' ']
+/-- `param, default_value` (cpp_view_helper.py:56-61): the first piece and everything behind the first top-level `=`. -/
+def paramSplit (parameter : Str) : List Str → Except Err (Str × Str)
+  | p :: _ :: _ => do
+    let at0 ← indexFrom parameter p 0
+    let assignAt ← indexFrom parameter ['='] (at0 + p.length)
+    .ok (p, strip (parameter.drop (assignAt + 1)))
+  | [p] => .ok (p, [])
+  | [] => .error .IndexError                       -- `param_default[0]`
+
+/-- `type_symbol.pop()` and `' '.join(type_symbol)` (cpp_view_helper.py:62-65). -/
+def paramFinish (typeSymbol : List Str) (defaultValue : Str) : Except Err (Str × Str × Str) :=
   match typeSymbol.getLast? with
   | none => .error .IndexError                     -- `type_symbol.pop()` on an empty list
   | some symbol => .ok (Str.join [' '] typeSymbol.dropLast, symbol, defaultValue)
+
+/-- → (var_type, symbol, default_value). -/
+def paramParse (parameter : Str) : Except Err (Str × Str × Str) :=
+  (breakSeparator parameter ['=']).bind fun paramDefault =>
+  (paramSplit parameter paramDefault).bind fun pd =>
+  (breakSeparator pd.1 [' ']).bind fun typeSymbol =>
+  paramFinish typeSymbol pd.2
 
 /-! ## The fragment grammar -/
 
